@@ -268,6 +268,88 @@ def run(tier, seed):
     S = pc.TrialSuggestionConverter
     if S.from_proto(S.to_proto(sug)) != sug:
       viol('TrialSuggestion differs after to_proto/from_proto', {'suggestion': repr(sug)})
+  # ---------------- Trial: model of TrialConverter.to_proto vs the real converter (exact on dyadic times)
+  def g_opt_str(x):
+    return 'None' if x is None else '(Some %s)' % gstr(x)
+
+  def g_pv(v):
+    if isinstance(v, bool):
+      return '(PvBool %s)' % gbool(v)
+    if isinstance(v, int):
+      return '(PvInt %s)' % gZ(v)
+    if isinstance(v, float):
+      return '(PvFloat %s)' % gQf(v)
+    return '(PvStr %s)' % gstr(v)
+
+  def g_pymeas(m):
+    return '(mkPM %s %s %s)' % (glist(list(m.metrics.items()), lambda kv: gpair(gstr(kv[0]), gQf(kv[1].value))), gQf(m.elapsed_secs), gZ(m.steps))
+
+  def g_time(dt):
+    if dt is None:
+      return 'None'
+    return '(Some (%s, %s))' % (gZ(int(dt.timestamp() // 1)), gZ(dt.microsecond))
+
+  def g_ptime(proto, field):
+    if not proto.HasField(field):
+      return 'None'
+    ts = getattr(proto, field)
+    return '(Some (%s, %s))' % (gZ(ts.seconds), gZ(ts.nanos))
+
+  def g_prv(p):
+    kind = p.value.WhichOneof('kind')
+    if kind == 'number_value':
+      return '(RvNumber %s)' % gQf(p.value.number_value)
+    if kind == 'string_value':
+      return '(RvString %s)' % gstr(p.value.string_value)
+    if kind == 'bool_value':
+      return '(RvBool %s)' % gbool(p.value.bool_value)
+    return 'RvUnset'
+
+  tcases, tobjs = [], []
+  base_ts = 1700000000
+  for i in range(N // 2):
+    params = {}
+    for nm in r.sample(['x', 'b', 's', 'i', 'é'], r.randrange(0, 4)):
+      params[nm] = r.choice([0.0, 1.5, -2.0, 0, 3, '', 'cat', 'True', True, False])
+    mk_dt = lambda: datetime.datetime.fromtimestamp(base_ts + r.randrange(100000)).replace(microsecond=r.choice([0, 500000, 250000, 125000]))
+    t = vz.Trial(id=r.randrange(1, 50), parameters=params, assigned_worker=r.choice([None, 'w', '']), description=r.choice([None, 'd', '']),
+                 creation_time=r.choice([None, mk_dt()]))
+    if t.creation_time is not None and r.random() < 0.0:
+      pass
+    st = r.choice(['active', 'requested', 'succeeded', 'infeasible', 'stopping', 'requested+completed', 'stopping+completed'])
+    if r.random() < 0.4:
+      t.measurements.append(vz.Measurement({'m': 1.0}, elapsed_secs=r.choice([0.0, 2.5]), steps=1))
+    if st.startswith('requested'):
+      t.is_requested = True
+    if st.startswith('stopping'):
+      t.stopping_reason = 'because'
+    if st in ('succeeded', 'requested+completed', 'stopping+completed'):
+      t.complete(vz.Measurement({'m': float(r.randrange(3))}, elapsed_secs=1.25, steps=2))
+    elif st == 'infeasible':
+      t.complete(vz.Measurement() if r.random() < 0.5 else vz.Measurement({'m': 1.0}), infeasibility_reason=r.choice(['bad', '']))
+    if t.completion_time is not None:
+      t.completion_time = mk_dt()
+    if t.creation_time is None:
+      t.creation_time = None
+    pr = T.to_proto(t)
+    term = '(mkPT %s %s %s %s %s %s %s %s %s %s %s)' % (
+        gZ(t.id), g_opt_str(t.description), g_opt_str(t.assigned_worker), gbool(t.is_requested), g_opt_str(t.stopping_reason),
+        g_opt_str(t.infeasibility_reason), glist(list(t.parameters.items()), lambda kv: gpair(gstr(kv[0]), g_pv(kv[1].value))),
+        'None' if t.final_measurement is None else '(Some %s)' % g_pymeas(t.final_measurement),
+        glist(list(t.measurements), g_pymeas), g_time(t.creation_time), g_time(t.completion_time))
+    got = '(%s, %s, %s, %s, %s, %s, %s, %s)' % (
+        gstr(pr.name), gZ(int(pr.id)), gN(int(pr.state)), gstr(pr.client_id),
+        glist(list(pr.parameters), lambda p: gpair(gstr(p.parameter_id), g_prv(p))), g_ptime(pr, 'start_time'), g_ptime(pr, 'end_time'),
+        gstr(pr.infeasible_reason))
+    tcases.append('(%s, %s)' % (term, got))
+    tobjs.append(repr(t)[:300])
+    rep.case({'trial_model_case': repr(t)[:200]}, st not in ('active',))
+    rep.count('trial_model_' + st)
+  bad = C.run_cases('C09', 'trial', 'From VZ Require Import Base.Prelude Model.Wire Gen.EnumMaps Model.WireConv Model.WireTrial.\n', tcases, 'trial_case_ok')
+  rep.disagreements += len(bad)
+  for i in bad[:3]:
+    broke = ((broke or '') + ' correspondence TrialConverter.to_proto vs model on %s;' % (tobjs[i],))
+
   D = pc.MetadataDeltaConverter
   for i in range(N // 3):
     d = vz.MetadataDelta()
